@@ -3,7 +3,7 @@ import json
 from harness import common, tlc, shapes, embed, jobs, judge
 from harness.checks.c04 import pcfg, trace_constants, same_val_registers, CODE_DEV, _renderable
 
-EVK = ('op', 'k', 'v', 'lo', 'hi', 'xlo', 'xhi', 'path', 'res', 'sticky', 'proj', 'nreg', 'nrc')
+EVK = ('op', 'k', 'v', 'lo', 'hi', 'xlo', 'xhi', 'path', 'res', 'sticky', 'proj', 'nreg', 'nrc', 'swept')
 
 
 def main():
@@ -64,6 +64,16 @@ def main():
                                      ntraces=(24 if impl == 'c' else 10) if quick else 200, length=50 if quick else 80,
                                      seed=ck.seed * 100000 + len(plan), pure=(impl == 'py'),
                                      emb='ext' if len(plan) % 3 == 0 else 'mid'))
+    # deep trees: growth phases (ascending / descending / random runs of inserts) with sweeps in between, 15 keys
+    for fam in (['II', 'OO'] if quick else fams):
+        for impl in ('c', 'py'):
+            for is_set in (True, False):
+                for (lf, it) in ((2, 2), (2, 4), (3, 3)):
+                    if quick and impl == 'py' and (lf, it) != (2, 2):
+                        continue
+                    plan.append(dict(fam=fam, impl=impl, is_set=is_set, leaf=lf, internal=it, nkeys=15, grow=True,
+                                     ntraces=(16 if impl == 'c' else 6) if quick else 150, length=60 if quick else 90,
+                                     seed=ck.seed * 100000 + 9000 + len(plan), pure=(impl == 'py'), emb='mid'))
     for impl in ('c', 'py'):
         for is_set in (True, False):
             for (lf, it, nk) in ((2, 2, 10), (3, 2, 12), (2, 3, 12)):
@@ -82,7 +92,7 @@ def main():
         for tr in res['traces']:
             groups.setdefault(key, []).append((ident, tr))
     for key, items in sorted(groups.items()):
-        traces = [[{k: e.get(k, 0) for k in EVK} for e in tr] for _, tr in items]
+        traces = [[{k: (1 if 'sweep_at' in e else 0) if k == 'swept' else e.get(k, 0) for k in EVK} for e in tr] for _, tr in items]
         sel = []
         cut = {}        # trace index -> first event that ended outside the model vocabulary (judged only up to there)
         for i, ((ident, tr), t) in enumerate(zip(items, traces)):
@@ -118,6 +128,10 @@ def main():
                                  dict(ident, kind='d18-unlisted', history=[[x['op'], x['k'], x['v']] for x in tr[:line + 1]]))
                 continue
             e = tr[line]
+            if why and why.startswith('D35:') and 'D35' in [f['id'] for f in ck.known]:
+                # the specification attributes this rejection to the recorded finding (Python has no pins)
+                ck.known_finding('D35')
+                continue
             ck.violation('%s %s %s sizes=%s: event %d (%s k=%s%s) -> %s: %s' % (
                 ident['fam'], ident['impl'], 'set' if ident['is_set'] else 'map', ident['sizes'], line, e['op'], e['k'],
                 ', sweep inside comparison %s' % e['sweep_at'] if 'sweep_at' in e else '', e['res'], why),
